@@ -256,11 +256,13 @@ def run_case(ctx):
         probe_root = os.path.join(ctx.scratch, "probe")
         inputs = tool.prepare_root(probe_root)
         files = []
+        sizes = {}
         for i in inputs:
             for dp, dn, fn in os.walk(i):
                 dn.sort()
                 for f in sorted(fn):
                     files.append(os.path.relpath(os.path.join(dp, f), probe_root))
+                    sizes[files[-1]] = os.path.getsize(os.path.join(dp, f))
         shutil.rmtree(probe_root, ignore_errors=True)
         heads = [f for f in files if f.endswith("Header")]
         lvh = [f for f in files if f.endswith("_H")]
@@ -271,7 +273,13 @@ def run_case(ctx):
         cls = src.choice("unreadable.class", ["Header", "level-header", "binary"] +
                          (["binary", "binary"] if kind == "EIO-MID" else []))
         pool_ = {"Header": heads, "level-header": lvh, "binary": bins}[cls] or heads
-        rel = pool_[src.draw("unreadable.which", 0, len(pool_) - 1)]
+        if kind == "EIO-MID" and cls == "binary" and len(pool_) > 1:
+            # (larger binaries first and two draws, the smaller index wins: files holding several FABs - where a
+            # sequential reader goes on looking for the next box - are favoured)
+            pool_ = sorted(pool_, key=lambda f: (-sizes.get(f, 0), f))
+            rel = pool_[min(src.draw("unreadable.which", 0, len(pool_) - 1), src.draw("unreadable.which2", 0, len(pool_) - 1))]
+        else:
+            rel = pool_[src.draw("unreadable.which", 0, len(pool_) - 1)]
         spec = kind
         if kind == "EIO-MID":
             # the file opens, but becomes unreadable part-way: reads before that point are served (short),
